@@ -265,6 +265,10 @@ def c03_specs(draw, accuracy=True, classes=None, dims=(1, 2, 3), aniso=True, nug
         )
     )
     spec["opt"] = draw(c03_opt(spec["cls"], spec["dim"], accuracy))
+    if spec["cls"] == "Matern" and draw(st.integers(0, 5)) == 0:
+        # orders next to the half-integers, where the Bessel form reduces to elementary functions (the closed form is smooth in nu)
+        base_ = draw(st.sampled_from([0.5, 1.5, 2.5]))
+        spec["opt"] = dict(spec["opt"], nu=float(base_ * (1.0 + draw(st.sampled_from([-8e-6, -3e-6, -1e-7, 0.0, 1e-7, 3e-6, 8e-6])))))
     return spec
 
 
@@ -481,7 +485,11 @@ def gen_closed(draw, tier="quick"):
         spec["latlon"] = True
         spec.pop("anis", None)
         spec.pop("angles", None)
-    return {"spec": spec, "lags": lags}
+    case = {"spec": spec, "lags": lags}
+    if spec.get("opt") and draw(st.integers(0, 3)) == 0:
+        # the shape parameters are reached by assignment on a model that has been evaluated with other values before
+        case["opt0"] = draw(gens.opt_args(spec["cls"], spec["dim"], mode="accuracy"))
+    return case
 
 
 def _tpl_amplification(spec):
@@ -506,7 +514,21 @@ def check_closed(case, rec):
     tags = _tags(spec, sub="closed_form")
     _labels(rec, spec)
     o = _full_opt(spec)
-    m = lib(build_model, spec, _what="model construction", _tags=tags)
+    if case.get("opt0"):
+        m = None
+        try:
+            with common.quiet():
+                m0 = build_model(dict(spec, opt=dict(spec["opt"], **{k: v for k, v in case["opt0"].items() if k in spec["opt"]})))
+                m0.variogram(np.array([0.0, 0.3, 1.0]) * float(m0.len_scale))
+                for k_, v_ in spec["opt"].items():
+                    setattr(m0, k_, v_)
+                m0.var = spec["var"]  # (stored raw for the TPL models: follows the shape parameters until it is assigned)
+            m = m0
+            rec.label("shape_parameters_assigned_on_used_model")
+        except ValueError:
+            m = None  # an intermediate state left the bounds: nothing to compare
+    if not case.get("opt0") or m is None:
+        m = lib(build_model, spec, _what="model construction", _tags=tags)
     var, nugget = spec["var"], spec.get("nugget", 0.0)
     sill = var + nugget
     r = _lags_r(spec, case["lags"])
